@@ -493,10 +493,10 @@ def r6_wiring(L, repo):
 def run(L, tier):
     repo = Repo(L.repo)
     L.unit(F)
-    r1_writers(L, repo)
-    r2_propagation(L, repo)
-    r3_clock_table(L, repo)
-    r3b_clckgen_running(L, repo)
-    r4_power_cmds(L, repo)
-    r5_ports(L, repo)
-    r6_wiring(L, repo)
+    L.stage(r1_writers, L, repo)
+    L.stage(r2_propagation, L, repo)
+    L.stage(r3_clock_table, L, repo)
+    L.stage(r3b_clckgen_running, L, repo)
+    L.stage(r4_power_cmds, L, repo)
+    L.stage(r5_ports, L, repo)
+    L.stage(r6_wiring, L, repo)
